@@ -22,7 +22,7 @@ Open Scope N_scope.
 
 (* false = the tree as pinned (POSIX path: fixed 15..128 BYTES, account policy ignored);
    true  = the tree with /verif/fixes/C31.patch (POSIX path: graphemes against max(policy minimum, 15)) *)
-Definition tree_fixed : bool := true.
+Definition tree_fixed : bool := false.
 
 (* ------------------------------------------------------------------ strings *)
 Definition str := list N.
